@@ -91,6 +91,14 @@ Definition indexed (st : dstate) : list (Z * Z) := indexed_from 0 (map fst (d_bl
 Definition dstate_init (sizes : list Z) (sentinel : bool) : dstate :=
   mkD (map (fun p => (fst p, tlsf_init HFake 1 (snd p))) (indexed_from 0 sizes)) [] sentinel.
 
+(* the same with the block list's granularity handler h (HFake accept-all, HVam vam's
+   blockBufferImageGranularity) and bufferImageGranularity g; dstate_init = dstate_init_g HFake 1.
+   The planner (memutils/defrag/context.go) never calls BlockList.BufferImageGranularity(): the
+   granularity acts only through the blocks' metadata (RoundUpAllocRequest,
+   CheckConflictAndAlignUp, the page table), which Tlsf.v models. *)
+Definition dstate_init_g (h : handler) (g : Z) (sizes : list Z) (sentinel : bool) : dstate :=
+  mkD (map (fun p => (fst p, tlsf_init h g (snd p))) (indexed_from 0 sizes)) [] sentinel.
+
 (* ---------------------------------------------------------------- allocating in one block *)
 
 Inductive aires := AIOk (t' : tlsf) (off : Z) | AINo (t' : tlsf) | AIPanic.
@@ -523,6 +531,9 @@ Record world := mkW {
 Definition world_init (sizes : list Z) (sentinel : bool) : world :=
   mkW (dstate_init sizes sentinel) None false 0 0 None false ps_zero false.
 
+Definition world_init_g (h : handler) (g : Z) (sizes : list Z) (sentinel : bool) : world :=
+  mkW (dstate_init_g h g sizes sentinel) None false 0 0 None false ps_zero false.
+
 Inductive wop :=
 | OpAlloc (id size align kind tag : Z)
 | OpFree (slot : Z)
@@ -679,4 +690,297 @@ Fixpoint run_any (fuel : nat) (st : dstate) (c : dctx) (mb ma : Z)
       | _ => run_any f st' c' mb ma dec acc' (S n) (log ++ [ms])
       end
     end
+  end.
+
+(* ---------------------------------------------------------------- a planner whose commits can fail *)
+
+(* BlockList.CommitDefragAllocationRequest may return an error (vam: mapping the destination block
+   for a persistently mapped source fails).  Both callers swallow it: allocInOtherBlock goes on to
+   the next candidate block, allocIfLowerOffset answers false.  CreateAllocationRequest has run by
+   then (the metadata is in the state t1 it leaves: same regions, possibly another free-list
+   order); metadata.Alloc has not.  The planner only sees err != nil: the outcome of every commit
+   attempt is given by an attempt function over an environment the caller threads through,
+       att e (source slot) (destination block id) = (e', commit succeeded).
+   Every attempt is logged.  With att := fun e _ _ => (e, true) these functions are the ones
+   above (collect_moves_f_all_ok). *)
+
+Inductive attempt :=
+| AtFail (slot : nat) (dst : Z)      (* a commit that returned an error: nothing proposed, nothing reserved *)
+| AtOk (m : move).                   (* a commit that succeeded: the move it added *)
+
+Definition at_dst (a : attempt) : Z := match a with AtFail _ d => d | AtOk m => m_dstblk m end.
+
+Fixpoint log_moves (lg : list attempt) : list move :=
+  match lg with
+  | [] => []
+  | AtOk m :: r => m :: log_moves r
+  | AtFail _ _ :: r => log_moves r
+  end.
+
+(* the move commit_move appends *)
+Definition commit_mv (st' : dstate) (slot : nat) (e : uent) (bi : Z) (dstidx dstid off : Z) : move :=
+  mkMove slot (length (d_table st')) (u_blk e) bi (u_off e) dstid dstidx off (u_size e).
+
+Section F.
+Variable E : Type.
+Variable att : E -> nat -> Z -> E * bool.
+
+(* CreateAllocationRequest, then the commit attempt, then (when it succeeds) metadata.Alloc.
+   The boolean: an attempt was made and failed. *)
+Definition alloc_in_f (t : tlsf) (size align kind strategy maxOffset : Z) (tag : option Z)
+           (env : E) (slot : nat) (dst : Z) : aires * E * bool :=
+  match create_request t size align false kind strategy maxOffset with
+  | QGranted t1 r =>
+    let '(env', ok) := att env slot dst in
+    if ok then
+      match alloc t1 r tag size align with
+      | AOk t2 h => (AIOk t2 h, env', false)
+      | AError => (AINo t1, env', true)
+      | APanic => (AIPanic, env', false)
+      end
+    else (AINo t1, env', true)
+  | QRefused => (AINo t, env, false)
+  | QError => (AINo t, env, false)
+  | QPanic => (AIPanic, env, false)
+  end.
+
+Definition alloc_lower_f (t : tlsf) (size align kind offset : Z) (tag : option Z)
+           (env : E) (slot : nat) (dst : Z) : aires * E * bool :=
+  match create_request t size align false kind 4 offset with
+  | QGranted t1 r =>
+    if rq_block r <? offset then
+      let '(env', ok) := att env slot dst in
+      if ok then
+        match alloc t1 r tag size align with
+        | AOk t2 h => (AIOk t2 h, env', false)
+        | AError => (AINo t1, env', true)
+        | APanic => (AIPanic, env', false)
+        end
+      else (AINo t1, env', true)
+    else (AINo t1, env, false)
+  | QRefused => (AINo t, env, false)
+  | QError => (AIPanic, env, false)
+  | QPanic => (AIPanic, env, false)
+  end.
+
+Definition fail_log (failed : bool) (slot : nat) (dst : Z) : list attempt :=
+  if failed then [AtFail slot dst] else [].
+
+Fixpoint alloc_other_f (st : dstate) (cands : list (Z * Z)) (size align kind : Z) (env : E) (slot : nat)
+  : aores * E * list attempt :=
+  match cands with
+  | [] => (AONone st, env, [])
+  | (idx, id) :: rest =>
+    match find_id id (d_blocks st) with
+    | None => (AOPanic st, env, [])
+    | Some t =>
+      if may_have_free t kind size then
+        match alloc_in_f t size align kind 0 max_int (tmp_tag st) env slot id with
+        | (AIOk t' off, env', _) => (AOFound (set_block st id t') idx id off, env', [])
+        | (AINo t', env', failed) =>
+          let '(r, env'', lg) := alloc_other_f (set_block st id t') rest size align kind env' slot in
+          (r, env'', fail_log failed slot id ++ lg)
+        | (AIPanic, env', _) => (AOPanic st, env', [])
+        end
+      else alloc_other_f st rest size align kind env slot
+    end
+  end.
+
+Definition try_lower_f (cs : cstate) (bi id : Z) (t : tlsf) (h : Z) (slot : nat) (e : uent) (env : E)
+  : (cstate * E * list attempt) * wres :=
+  let st := cs_st cs in
+  match alloc_lower_f t (u_size e) (u_align e) (u_kind e) h (tmp_tag st) env slot id with
+  | (AIOk t' off, env', _) =>
+    let '(cs', r) := commit_move cs (set_block st id t') slot e bi bi id off in
+    ((cs', env', [AtOk (commit_mv (set_block st id t') slot e bi bi id off)]), r)
+  | (AINo t', env', failed) => ((cs_set_st cs (set_block st id t'), env', fail_log failed slot id), WCont)
+  | (AIPanic, env', _) => ((cs, env', []), WPanic PMeta)
+  end.
+
+Definition lower_if_f (cs0 : cstate) (bi id : Z) (h : Z) (slot : nat) (e : uent) (env : E)
+  : (cstate * E * list attempt) * wres :=
+  match find_id id (d_blocks (cs_st cs0)) with
+  | None => ((cs0, env, []), WPanic PMeta)
+  | Some t =>
+    if negb (h =? 0) && may_have_free t (u_kind e) (u_size e)
+    then try_lower_f cs0 bi id t h slot e env
+    else ((cs0, env, []), WCont)
+  end.
+
+Definition handle_alloc_f (algo : Z) (ix : list (Z * Z)) (cs : cstate) (bi id : Z) (h : Z) (slot : nat) (e : uent)
+           (env : E) : (cstate * E * list attempt) * wres :=
+  let st := cs_st cs in
+  let cands := firstn (Z.to_nat bi) ix in
+  let found (st' : dstate) (idx did off : Z) (env' : E) (lg : list attempt) :=
+    let '(cs', r) := commit_move cs st' slot e bi idx did off in
+    ((cs', env', lg ++ [AtOk (commit_mv st' slot e bi idx did off)]), r) in
+  if algo =? 0 then lower_if_f cs bi id h slot e env
+  else if algo =? 1 then
+    if bi =? 0 then ((cs, env, []), WStop) else
+    match alloc_other_f st cands (u_size e) (u_align e) (u_kind e) env slot with
+    | (AOFound st' idx did off, env', lg) => found st' idx did off env' lg
+    | (AONone st', env', lg) => ((cs_set_st cs st', env', lg), WCont)
+    | (AOPanic st', env', lg) => ((cs_set_st cs st', env', lg), WPanic PMeta)
+    end
+  else
+    if 0 <? bi then
+      match alloc_other_f st cands (u_size e) (u_align e) (u_kind e) env slot with
+      | (AOFound st' idx did off, env', lg) => found st' idx did off env' lg
+      | (AONone st', env', lg) =>
+        let '((cs', env'', lg2), r) := lower_if_f (cs_set_st cs st') bi id h slot e env' in
+        ((cs', env'', lg ++ lg2), r)
+      | (AOPanic st', env', lg) => ((cs_set_st cs st', env', lg), WPanic PMeta)
+      end
+    else lower_if_f cs bi id h slot e env.
+
+Definition visit_f (algo : Z) (ix : list (Z * Z)) (cs : cstate) (bi id : Z) (h : Z) (env : E)
+  : (cstate * E * list attempt) * wres :=
+  match find_id id (d_blocks (cs_st cs)) with
+  | None => ((cs, env, []), WPanic PMeta)
+  | Some t =>
+    match get_move_data (cs_st cs) t h with
+    | MDPanic => ((cs, env, []), WPanic PMeta)
+    | MDImmobile => ((cs, env, []), WCont)
+    | MDMove slot e =>
+      let '(p1, c) := check_counters (cs_pass cs) (u_size e) in
+      let cs1 := cs_set_pass cs p1 in
+      match c with
+      | CIgnore => ((cs1, env, []), WCont)
+      | CEnd => ((cs1, env, []), WStop)
+      | CPass => handle_alloc_f algo ix cs1 bi id h slot e env
+      end
+    end
+  end.
+
+Fixpoint walk_block_f (fuel : nat) (algo : Z) (ix : list (Z * Z)) (cs : cstate) (bi id : Z) (h : Z) (env : E)
+  : (cstate * E * list attempt) * wres :=
+  match fuel with
+  | O => ((cs, env, []), WPanic PFuel)
+  | S f =>
+    match visit_f algo ix cs bi id h env with
+    | ((cs', env', lg), WCont) =>
+      match find_id id (d_blocks (cs_st cs')) with
+      | None => ((cs', env', lg), WPanic PMeta)
+      | Some t' =>
+        match next_alloc t' h with
+        | None => ((cs', env', lg), WCont)
+        | Some h' =>
+          let '((cs'', env'', lg2), r) := walk_block_f f algo ix cs' bi id h' env' in
+          ((cs'', env'', lg ++ lg2), r)
+        end
+      end
+    | r => r
+    end
+  end.
+
+Fixpoint walk_blocks_f (fuel : nat) (algo : Z) (ix : list (Z * Z)) (cs : cstate) (srcs : list (Z * Z)) (env : E)
+  : (cstate * E * list attempt) * wres :=
+  match srcs with
+  | [] => ((cs, env, []), WCont)
+  | (bi, id) :: rest =>
+    match find_id id (d_blocks (cs_st cs)) with
+    | None => ((cs, env, []), WPanic PMeta)
+    | Some t =>
+      match list_begin t with
+      | LBPanic => ((cs, env, []), WPanic PMeta)
+      | LBNone => walk_blocks_f fuel algo ix cs rest env
+      | LBSome h =>
+        match walk_block_f fuel algo ix cs bi id h env with
+        | ((cs', env', lg), WCont) =>
+          let '((cs'', env'', lg2), r) := walk_blocks_f fuel algo ix cs' rest env' in
+          ((cs'', env'', lg ++ lg2), r)
+        | r => r
+        end
+      end
+    end
+  end.
+
+(* Go: BlockListCollectMoves with failing commits *)
+Definition collect_moves_f (st : dstate) (c : dctx) (p : pass) (env : E) : (cstate * E * list attempt) * wres :=
+  let n := zlen (d_blocks st) in
+  let ix := indexed st in
+  let srcs := rev (skipn (Z.to_nat (c_immovable c)) ix) in
+  let cs0 := mkCS st (c_moves c) p in
+  let fuel := walk_fuel st in
+  if 1 <? n then
+    if c_algo c =? 1 then walk_blocks_f fuel 1 ix cs0 srcs env
+    else if c_algo c =? 2 then walk_blocks_f fuel 2 ix cs0 srcs env
+    else ((cs0, env, []), WPanic PAlgo)
+  else if (n =? 1) && negb (c_algo c =? 1) then walk_blocks_f fuel 0 ix cs0 srcs env
+  else ((cs0, env, []), WCont).
+
+End F.
+
+(* an undisturbed pass / run whose commits can fail: the environment is threaded through the passes *)
+Section RunF.
+Variable E : Type.
+Variable att : E -> nat -> Z -> E * bool.
+
+Definition one_pass_f (st : dstate) (c : dctx) (mb ma : Z) (decide : list move -> list Z * list Z) (env : E)
+  : option (dstate * dctx * pass * list move * E * list attempt) :=
+  match collect_moves_f E att st c (pass_init mb ma) env with
+  | ((cs, env', lg), WPanic _) => None
+  | ((cs, env', lg), _) =>
+    let c1 := mkC (c_algo c) (cs_moves cs) (c_immovable c) in
+    let d := decide (cs_moves cs) in
+    let r := complete_pass (cs_st cs) c1 (cs_pass cs) (fst d) (snd d) in
+    match r_kind r with
+    | ROk => Some (r_st r, r_ctx r, r_pass r, cs_moves cs, env', lg)
+    | _ => None
+    end
+  end.
+
+Fixpoint run_any_f (fuel : nat) (st : dstate) (c : dctx) (mb ma : Z)
+         (dec : nat -> list move -> list Z * list Z) (env : E) (acc : pstats) (n : nat) (log : list (list move)) : runres :=
+  match fuel with
+  | O => RunOutOfFuel
+  | S f =>
+    match one_pass_f st c mb ma (dec n) env with
+    | None => RunFailed
+    | Some (st', c', p', ms, env', _) =>
+      let acc' := ps_add acc (p_stats p') in
+      match ms with
+      | [] => RunDone st' n acc' (log ++ [ms])
+      | _ => run_any_f f st' c' mb ma dec env' acc' (S n) (log ++ [ms])
+      end
+    end
+  end.
+End RunF.
+
+(* the result without environment and log *)
+Definition res_f {E} (r : (cstate * E * list attempt) * wres) : cstate * wres := (fst (fst (fst r)), snd r).
+Definition log_f {E} (r : (cstate * E * list attempt) * wres) : list attempt := snd (fst r).
+Definition env_f {E} (r : (cstate * E * list attempt) * wres) : E := snd (fst (fst r)).
+
+(* ---------------------------------------------------------------- the harness protocol with failing commits *)
+
+(* `CF k1 k2 ...` before PASS: the k-th commit attempts (0-based) of the next pass fail *)
+Definition att_list (env : nat * list Z) (_ : nat) (_ : Z) : (nat * list Z) * bool :=
+  ((S (fst env), snd env), negb (mem_zb (Z.of_nat (fst env)) (snd env))).
+
+Record worldf := mkWf { wf_w : world; wf_fail : list Z }.
+
+Inductive wopf := OpF (o : wop) | OpCF (ks : list Z).
+
+Definition wstep_f (wf : worldf) (o : wopf) : worldf * wout * list attempt :=
+  let w := wf_w wf in
+  match o with
+  | OpCF ks => if w_dead w then (wf, OutDead, []) else (mkWf w ks, OutKind ROk, [])
+  | OpF OpPass =>
+    if w_dead w then (wf, OutDead, []) else
+    if negb (w_begun w) then (wf, OutNoBegin, []) else
+    if w_open w then (wf, OutBusy, []) else
+    match w_ctx w with
+    | None => (wf, OutNoBegin, [])
+    | Some c =>
+      let p := pass_init (lim (w_max_bytes w)) (lim (w_max_allocs w)) in
+      match collect_moves_f (nat * list Z) att_list (w_st w) c p (O, wf_fail wf) with
+      | ((cs, _, lg), WPanic _) => (mkWf (kill w) [], OutKind RPanic, [])
+      | ((cs, _, lg), _) =>
+        (mkWf (mkW (cs_st cs) (Some (mkC (c_algo c) (cs_moves cs) (c_immovable c))) true (w_max_bytes w) (w_max_allocs w)
+                   (Some (cs_pass cs)) true (w_run w) false) [],
+         OutPass (cs_moves cs), lg)
+      end
+    end
+  | OpF o' => let '(w', out) := wstep w o' in (mkWf w' (wf_fail wf), out, [])
   end.
